@@ -16,6 +16,7 @@ import (
 func init() {
 	mon.Register(&mon.Check{
 		ID:        "C19",
+		Boost:     8,
 		Batches:   func(tier string) int { return 16 },
 		Run:       runC19,
 		Technique: "classifier-based runtime monitor: the bytes the server will see after de-obfuscation are classified by an independent length-consistency evaluator (h/rfc8907.Decode); the real connection loop is then observed in lock-step (handler entries, packets written, close)",
